@@ -89,8 +89,8 @@ func genNamePool(t *rapid.T, n int) []string {
 				name = base + "/" + genSubName(t)
 			case 1:
 				name = base + "0"
-			case 2:
-				name = base + "#01"
+			case 2: // a suffix that sorts below '/': siblings of the base that order between it and its sub tests
+				name = base + rapid.SampledFrom([]string{"#01", "-b", ".1", "(x)", ",y", "+1"}).Draw(t, "lowsuffix")
 			default:
 				name = base + "B"
 			}
